@@ -180,7 +180,33 @@ func (w *world) defVar() {
 	name := fmt.Sprintf("zv%d", w.nvar)
 	kind := []string{"defvar", "defvar", "defparameter"}[w.pick("varkind", 3)]
 	var val string
-	switch w.pick("varval", 4) {
+	k := w.pick("varval", 5)
+	if k == 4 && len(w.flavors)+len(w.classes) == 0 {
+		k = 2
+	}
+	switch k {
+	case 4:
+		// an instance of a flavor or class of the session, some slots changed
+		var cls string
+		var slots []string
+		if i := w.pick("instof", len(w.flavors)+len(w.classes)); i < len(w.flavors) {
+			cls, slots = w.flavors[i].name, w.flavors[i].allVars()
+		} else {
+			c := w.classes[i-len(w.flavors)]
+			cls, slots = c.name, c.slots
+		}
+		var sets []string
+		for _, sl := range slots {
+			if w.pick("iset", 2) == 0 {
+				v := []string{"42", "\"str\"", "'(1 two \"3\")", "'sym", ":kw", "2.5", "nil"}[w.pick("ival", 7)]
+				sets = append(sets, fmt.Sprintf("(setf (slot-value i '%s) %s)", sl, v))
+			}
+		}
+		val = fmt.Sprintf("(let ((i (make-instance '%s))) %s i)", cls, strings.Join(sets, " "))
+		for _, sl := range slots {
+			w.probes = append(w.probes, fmt.Sprintf("(ignore-errors (slot-value %s '%s))", name, sl))
+		}
+		w.kinds["instance-var"] = true
 	case 0, 1:
 		val = strconv.Itoa(rapid.IntRange(-5, 40).Draw(w.t, "intval"))
 		w.intVars = append(w.intVars, name)
@@ -193,7 +219,10 @@ func (w *world) defVar() {
 		src += " " + quoteDoc(d)
 	}
 	w.add(kind, name, src+")")
-	w.probes = append(w.probes, name, fmt.Sprintf("(documentation '%s 'variable)", name))
+	if k != 4 {
+		w.probes = append(w.probes, name)
+	}
+	w.probes = append(w.probes, fmt.Sprintf("(documentation '%s 'variable)", name))
 }
 
 func (w *world) defConst() {
